@@ -165,6 +165,12 @@ func main() {
 			if *tier == "thorough" && c.e3 != nil && i == 0 {
 				// determinism cross-check of the E3 fix-point under the reverse processing order
 				if d1, d2 := c.e3.Digest(), newE3(c, true).Digest(); d1 != d2 {
+					l1, l2 := strings.Split(d1, "\n"), strings.Split(d2, "\n")
+					for i := range l1 {
+						if i < len(l2) && l1[i] != l2[i] {
+							fmt.Fprintf(os.Stderr, "  forward : %s\n  reversed: %s\n", l1[i], l2[i])
+						}
+					}
 					fmt.Fprintln(os.Stderr, "anycheck: E3 summaries differ between two processing orders — analysis is not deterministic")
 					return 2
 				}
